@@ -93,7 +93,11 @@ def parse_telegram_url(url):
     if not is_telegram_url(url):
         return None
 
-    parsed = safe_urlsplit(url)
+    try:
+        parsed = safe_urlsplit(url)
+    except ValueError:
+        return None
+
     path = pathsplit(parsed.path)
 
     if path:
